@@ -88,6 +88,16 @@ CRawTau == { Case(op, a, None, None) : op \in {"rawtau_tau", "rawtau_tau2", "raw
            \cup { Case(op, a, None, <<k>>) : op \in {"rawtau_is_timelike", "rawtau_is_spacelike", "rawtau_is_lightlike"},
                                               a \in RawVecs, k \in CausalTols }
 
+\* exactly parallel / antiparallel pairs with irrational norms: the computed cosine reaches +-1 only up to rounding, on
+\* either side - the clamps in front of arccos and the tolerance comparisons are what make the answer right
+ColBase == { V3(1, 2, 3), V3(3, 2, 0), V3(3, 3, 3), V3(2, -3, 6), V3(-1, 2, 2), V3(1, 1, 1), V3(5, 0, -12), V3(-2, 1, -1) }
+ColPairs == { <<v, VScale(v, k)>> : v \in ColBase, k \in {I(-1), I(-2), I(3)} }
+CCollinear == { Case("deltaangle", p[1], p[2], None) : p \in ColPairs }
+              \* (small bases only: the exact comparison multiplies squared norms by the squared tolerance in 32 bits)
+              \cup { Case(op, v, VScale(v, k), <<tol>>) : op \in {"is_parallel", "is_antiparallel", "is_perpendicular"},
+                                                        v \in { V3(1, 2, 3), V3(3, 2, 0), V3(1, 1, 1), V3(-2, 1, -1) }, k \in {I(-1), I(-2), I(3)},
+                                                        tol \in {R(1, 100), R(1, 1000)} }
+
 CONSTANT Group      \* which group this run enumerates ("all" for every group)
 
 On(g) == Group = "all" \/ Group = g
@@ -107,6 +117,7 @@ Init == \/ On("unary") /\ c \in CUnary
         \/ On("cmp") /\ c \in CCmp
         \/ On("pred") /\ c \in CPred
         \/ On("rawtau") /\ c \in CRawTau
+        \/ On("collinear") /\ c \in CCollinear
 Next == UNCHANGED c
 Spec == Init /\ [][Next]_c
 
